@@ -203,7 +203,7 @@ def run(ops, K=2, needs_hist=(2,), chains=2, seed=0, J=1, init_cfgs=(), included
         ev = evs[c] + [dict(results_ev[c], allkeys=allkeys if c == 0 else [])]
         hdr = {"K": K, "J": J, "needs": sorted(needs_hist), "chain": c, "init": list(init_cfgs),
                "kernel_keys": keys, "included": list(included), "excluded": list(excluded), "nq": nq,
-               "via_builder": via_builder, "seed": seed,
+               "via_builder": via_builder, "seed": seed, "lenient": False,
                "postkey": [k for k in keys if k not in excluded][0]}
         hdr["scenario"] = {"ops": [list(o) for o in ops], "K": K, "needs_hist": list(needs_hist), "chains": chains,
                            "seed": seed, "J": J, "init_cfgs": list(init_cfgs), "included": list(included),
